@@ -118,7 +118,7 @@ func barrierJobs(prop string) func(tier string) []Job {
 			if tier == "thorough" && len(d.progs) == 2 {
 				bound = 3
 			}
-			j := Job{Name: prop + "/barrier/" + d.name(), Shards: 1}
+			j := Job{Name: fmt.Sprintf("%s/barrier/%s/c%d", prop, d.name(), bound), Shards: 1}
 			if tier == "thorough" {
 				j.Shards = 4
 			}
